@@ -4,7 +4,7 @@
    value ts S s = sum over the labels S of the product of the tensors ts, every
    other label (the outer labels) read from the assignment s  (Base/TN.v). *)
 From Coq Require Import ZArith QArith Arith List Bool Ring Permutation.
-From QV Require Import Base.Sums Base.TN Base.TNExec C04.Model C04.Rules C04.Proofs C04.Finders.
+From QV Require Import Base.Sums Base.TN Base.TNExec C04.Model C04.Rules C04.Proofs C04.Finders C04.Passes.
 Import ListNotations.
 Close Scope Q_scope.
 
@@ -280,6 +280,84 @@ Theorem C04_antidiag_finder_licenses_flip : forall dims inds shape data,
   tval G (arr_tensor inds shape data) s = g0.
 Proof. exact find_antidiag_axes_licenses. Qed.
 Print Assumptions C04_antidiag_finder_licenses_flip.
+
+(* ---- decision rules of the structure passes (Model.v: ag_choose / ag_decisions / dr_choose / cr_choose mirror the
+   branch structure of TensorNetwork.antidiag_gauge / diagonal_reduce / column_reduce) --------------------------- *)
+(* which label antidiag_gauge flips for a tensor that is antidiagonal in the labels (i, j): i unless it is an output,
+   else j unless it is an output too; never a label already flipped in this call *)
+Theorem C04_antidiag_choice_spec : forall outs done i j f,
+  ag_choose outs done i j = Some f <->
+  ((~ In i outs /\ f = i) \/ (In i outs /\ ~ In j outs /\ f = j)) /\ ~ In f done.
+Proof. exact ag_choose_spec. Qed.
+Print Assumptions C04_antidiag_choice_spec.
+
+Theorem C04_antidiag_choice_none : forall outs done i j,
+  ag_choose outs done i j = None <->
+  (In i outs /\ In j outs) \/ (In i outs /\ ~ In j outs /\ In j done) \/ (~ In i outs /\ In i done).
+Proof. exact ag_choose_none. Qed.
+Print Assumptions C04_antidiag_choice_none.
+
+(* one call of antidiag_gauge, for EVERY history of finder answers (any queue order, cache, arrays): no label is
+   flipped twice, no output label is ever flipped, every flipped label is one the finder reported *)
+Theorem C04_antidiag_pass_flips_spec : forall outs hist,
+  NoDup (ag_flips outs hist)
+  /\ forall f, In f (ag_flips outs hist) -> ~ In f outs /\ exists i j, In (i, j) hist /\ (f = i \/ f = j).
+Proof. exact ag_flips_spec. Qed.
+Print Assumptions C04_antidiag_pass_flips_spec.
+
+Theorem C04_diag_choice_spec : forall outs i j r k,
+  dr_choose outs i j = Some (r, k) <->
+  (~ In j outs /\ r = j /\ k = i) \/ (In j outs /\ ~ In i outs /\ r = i /\ k = j).
+Proof. exact dr_choose_spec. Qed.
+Print Assumptions C04_diag_choice_spec.
+
+Theorem C04_diag_choice_none : forall outs i j, dr_choose outs i j = None <-> In i outs /\ In j outs.
+Proof. exact dr_choose_none. Qed.
+Print Assumptions C04_diag_choice_none.
+
+Theorem C04_column_choice_spec : forall outs k, cr_choose outs k = true <-> ~ In k outs.
+Proof. exact cr_choose_spec. Qed.
+Print Assumptions C04_column_choice_spec.
+
+Section C04Passes.
+  Variable K : Type.
+  Variables (k0 k1 : K) (kadd kmul ksub : K -> K -> K) (kopp : K -> K).
+  Hypothesis Kring : ring_theory k0 k1 kadd kmul ksub kopp eq.
+  Variable dim : nat -> nat.
+  Notation value := (value K k0 k1 kadd kmul dim).
+
+  (* ... hence a whole call of antidiag_gauge preserves the denoted tensor, whatever the history: it suffices that every
+     label is either a declared output or summed *)
+  Theorem C04_antidiag_gauge_pass_sound : forall outs hist ts S s, Forall (wf K) ts ->
+    (forall i j, In (i, j) hist -> (In i outs \/ In i S) /\ (In j outs \/ In j S)) ->
+    value (apply_flips K dim (ag_flips outs hist) ts) S s = value ts S s.
+  Proof. exact (antidiag_gauge_pass_sound K k0 k1 kadd kmul ksub kopp Kring dim). Qed.
+
+  (* diagonal_reduce with the coded choice: the label that disappears is not an output and, being summed, may be
+     identified with the surviving one in either orientation *)
+  Theorem C04_diagonal_reduce_choice_sound : forall outs ts t i j r k R s, In t ts -> i <> j -> dim i = dim j ->
+    (forall s', inrange dim s' -> s' i <> s' j -> tval K t s' = k0) -> inrange dim s ->
+    dr_choose outs i j = Some (r, k) ->
+    ~ In r outs /\ value ts (R ++ [r]) s = value (map (subst K r k) ts) R s.
+  Proof. exact (diagonal_reduce_choice_sound K k0 k1 kadd kmul ksub kopp Kring dim). Qed.
+End C04Passes.
+Print Assumptions C04_antidiag_gauge_pass_sound.
+Print Assumptions C04_diagonal_reduce_choice_sound.
+
+(* non-vacuity for the pass rules: the operator wire  0 -X- 1 -Z- 2  with outputs 0 and 2.  X (antidiagonal) is visited
+   first and the inner bond 1 is flipped; that makes Z antidiagonal in (1, 2), whose only flippable label is done: the
+   rule leaves it alone.  Flipping the bond keeps the dense operator, flipping the output 2 instead does not. *)
+Example C04_pass_example :
+  let x := arr_tensor [0; 1] [2; 2] [(0,0); (1,0); (2,0); (0,0)]%Z in
+  let z := arr_tensor [1; 2] [2; 2] [(3,0); (0,0); (0,0); (5,1)]%Z in
+  let dims := [(0, 2); (1, 2); (2, 2)] in
+  ag_decisions [0; 2] [] [(0, 1); (1, 2); (1, 2)] = [Some 1; None; None]
+  /\ ag_flips [0; 2] [(0, 1); (1, 2)] = [1]
+  /\ ag_flips [] [(0, 1); (1, 2)] = [0; 1]
+  /\ dr_choose [0; 2] 1 2 = Some (1, 2) /\ dr_choose [0; 2] 0 2 = None /\ cr_choose [0; 2] 2 = false
+  /\ dense dims (apply_flips G (lookup dims) [1] [x; z]) [0; 2] = dense dims [x; z] [0; 2]
+  /\ dense dims (apply_flips G (lookup dims) [2] [x; z]) [0; 2] <> dense dims [x; z] [0; 2].
+Proof. vm_compute. repeat split; try reflexivity. discriminate. Qed.
 
 (* non-vacuity: a loopy 3-tensor network with a diagonal tensor; the finder returns (0,1),
    diagonal reduction (label 1 -> label 0) gives the same dense tensor over the outer label 3;
